@@ -9,7 +9,7 @@ K_LEDGER = KaniUnit(
     harnesses=["ledger_connect", "ledger_channel", "ledger_receiver_consume", "ledger_sender_clones",
                "ledger_opaque_channel", "ledger_shared_memory_drop", "ledger_shared_memory_clone"],
     props=["C11", "C03", "C16", "C04"],
-    id_props=[("kani.ledger.sender_", ["C11", "C03"]), ("kani.ledger.opaque_", ["C11", "C16"]),
+    id_props=[("kani.ledger.sender_", ["C11", "C03"]), ("kani.ledger.opaque_", ["C11", "C16", "C03"]),
               ("kani.ledger.consume", ["C11", "C04"]), ("kani.ledger.moved_", ["C11", "C04"]), ("kani.ledger.consumed_", ["C11", "C04"]),
               ("kani.ledger.", ["C11"])],
     safety_props=["C11"],
@@ -25,7 +25,7 @@ K_CMSG = KaniUnit(
     name="k_cmsg", harness_file="kani/harness_unix.rs", append_to="src/platform/unix/mod.rs",
     harnesses=["cmsg_recv_blocking", "cmsg_recv_nonblocking", "cmsg_recv_timeout", "conv_channel_is_closed"],
     props=["C10", "C03", "C11"],
-    id_props=[("kani.cmsg.recvmsg_cmsg_cloexec", ["C11"]), ("kani.cmsg.result_mapping", ["C10", "C03"]),
+    id_props=[("kani.cmsg.recvmsg_cmsg_cloexec", ["C11"]), ("kani.cmsg.result_mapping", ["C10", "C03"]), ("kani.cmsg.timeout_ready", ["C10", "C03"]),
               ("kani.conv.", ["C03", "C12"]), ("kani.cmsg.", ["C10"])],
     safety_props=["C10"],
     assumptions=["fcntl(F_SETFL) sets exactly the O_NONBLOCK bit it is given or fails; recvmsg and poll return ANY value (revents too)",
